@@ -1,6 +1,9 @@
 import CharsetProof.Lemmas.EntryFacts
 import CharsetProof.Props.C13
+import CharsetProof.Props.C13f
 open Charset
+#print axioms C13_chaos_is_mess_ratio_full
+#print axioms meanRatio_single
 #print axioms C13_normWindow_fit
 #print axioms C13_window_irrelevant
 #print axioms offsets_single
